@@ -105,7 +105,10 @@ func verifC14Literals() {
 func verifC14Zone() {
 	origin := "o.example"
 	names := []string{origin, "alias1.example", "alias2.example", "svc.example"}
-	rcodes := []uint8{0, 2, 3, 5}
+	rcodes := []uint8{1, 2, 3, 4, 5, 9}
+	rcErr := map[uint8]error{1: ErrFormatError, 2: ErrServerFailure, 3: ErrNonExistentDomain, 4: ErrNotImplemented, 5: ErrQueryRefused}
+	lastRC := uint8(0)           // response code of the last query (0: answered)
+	served6 := map[string]net.IP{} // IPv6 address the zone served for a name
 	z := &vZone{}
 	aliasLoop := vBool()
 	served := map[string]net.IP{} // address the zone served for a name
@@ -113,8 +116,10 @@ func verifC14Zone() {
 	refused := map[string]bool{} // an address query for the name was answered with an error rcode
 	z.answer = func(q vQuery) (*dns.Message, error) {
 		m := &dns.Message{QR: 1}
+		lastRC = 0
 		if vBool() {
-			m.RCode = rcodes[vInt(1, 3)]
+			m.RCode = rcodes[vInt(0, 5)]
+			lastRC = m.RCode
 			if q.typ != 65 {
 				refused[q.name] = true
 			}
@@ -131,7 +136,11 @@ func verifC14Zone() {
 		case 65:
 			switch q.name {
 			case origin:
-				switch vInt(0, 4) {
+				switch vInt(0, 5) {
+				case 5: // a malformed RRSet holding a service-mode and an alias-mode record
+					m.Answer = append(m.Answer,
+						dns.RR{Name: origin, Type: 65, Class: 1, TTL: 60, Data: dns.HTTPS{Priority: 1, ECH: []byte{1}}},
+						dns.RR{Name: origin, Type: 65, Class: 1, TTL: 60, Data: dns.HTTPS{Priority: 0, Target: "alias1.example"}})
 				case 4: // service mode with an explicit target that is the queried host itself
 					m.Answer = append(m.Answer, dns.RR{Name: origin, Type: 65, Class: 1, TTL: 60, Data: dns.HTTPS{Priority: 1, Target: origin, ECH: []byte{5}}})
 				case 0: // alias
@@ -156,7 +165,18 @@ func verifC14Zone() {
 					m.Answer = append(m.Answer, dns.RR{Name: q.name, Type: 65, Class: 1, TTL: 60, Data: dns.HTTPS{Priority: 1, ECH: []byte{3}}})
 				}
 			case "alias2.example":
-				m.Answer = append(m.Answer, dns.RR{Name: q.name, Type: 65, Class: 1, TTL: 60, Data: dns.HTTPS{Priority: 1, ECH: []byte{4}}})
+				switch vInt(0, 4) {
+				case 0:
+					m.Answer = append(m.Answer, dns.RR{Name: q.name, Type: 65, Class: 1, TTL: 60, Data: dns.HTTPS{Priority: 1, ECH: []byte{4}}})
+				case 1: // a loop that does not pass through the origin
+					m.Answer = append(m.Answer, dns.RR{Name: q.name, Type: 65, Class: 1, TTL: 60, Data: dns.HTTPS{Priority: 0, Target: "alias1.example"}})
+				case 2: // an alias of itself
+					m.Answer = append(m.Answer, dns.RR{Name: q.name, Type: 65, Class: 1, TTL: 60, Data: dns.HTTPS{Priority: 0, Target: "alias2.example"}})
+				case 3:
+					m.Answer = append(m.Answer, dns.RR{Name: q.name, Type: 65, Class: 1, TTL: 60, Data: dns.HTTPS{Priority: 0, Target: origin}})
+				case 4: // alias mode with target "." : the service does not exist
+					m.Answer = append(m.Answer, dns.RR{Name: q.name, Type: 65, Class: 1, TTL: 60, Data: dns.HTTPS{Priority: 0, Target: ""}})
+				}
 			}
 		case 1:
 			m.Answer = append(m.Answer, dns.RR{Name: "evil.example", Type: 1, Class: 1, TTL: 60, Data: vMarkerIP})
@@ -179,12 +199,29 @@ func verifC14Zone() {
 				m.Answer = append(m.Answer, dns.RR{Name: q.name, Type: 1, Class: 1, TTL: 60, Data: net.IP{10, 0, 0, 2}})
 				served[q.name] = net.IP{10, 0, 0, 2}
 			}
+		case 28:
+			m.Answer = append(m.Answer, dns.RR{Name: "evil.example", Type: 28, Class: 1, TTL: 60, Data: append(net.IP{6, 6, 6, 6}, make([]byte, 12)...)})
+			ip := net.IP{0x20, 1, 0xd, 0xb8, 0, 0, 0, 0, 0, 0, 0, 0, 0, 0, 0, byte(len(q.name))}
+			m.Answer = append(m.Answer, dns.RR{Name: q.name, Type: 28, Class: 1, TTL: 60, Data: ip})
+			served6[q.name] = ip
 		}
 		return m, nil
 	}
 	z.install()
 	r := &Resolver{}
 	res, err := r.Resolve(context.Background(), origin)
+	// error mapping: all failures here are response codes, and Resolve stops at the first
+	// one that matters, so it fails exactly when the last query it made was refused
+	vAssert((err != nil) == (lastRC != 0), "Resolve fails iff the last lookup it depended on was answered with an error code")
+	if err != nil && lastRC != 0 {
+		if want, ok := rcErr[lastRC]; ok {
+			vAssert(errors.Is(err, want), "the response code is mapped to its documented error")
+		} else {
+			for _, e := range rcErr {
+				vAssert(!errors.Is(err, e), "an undocumented response code is not reported as one of the documented errors")
+			}
+		}
+	}
 	nHTTPS := 0
 	for _, q := range z.queries {
 		if q.typ == 65 {
@@ -194,7 +231,6 @@ func verifC14Zone() {
 	vAssert(nHTTPS <= 4, "alias chain bounded: at most 4 HTTPS queries")
 	vAssert(len(z.queries) <= 4+2*3, "bounded number of queries")
 	if err != nil {
-		vAssert(errors.Is(err, ErrServerFailure) || errors.Is(err, ErrNonExistentDomain) || errors.Is(err, ErrQueryRefused), "rcode mapped to the documented error")
 		vReach("error")
 		return
 	}
@@ -218,7 +254,17 @@ func verifC14Zone() {
 				found = found || vBytesEq(a.To4(), ip)
 			}
 			vAssert(found, "a service-mode record comes with the addresses the zone serves for its target")
+			if ip6, ok := served6[h.Target]; ok {
+				found6 := false
+				for _, a := range res.Additional[h.Target] {
+					found6 = found6 || vBytesEq(a, ip6)
+				}
+				vAssert(found6, "a service-mode record comes with the IPv6 addresses of its target too")
+			}
 		}
+	}
+	for _, ip := range res.Address {
+		vAssert(len(ip) != 16 || ip[0] != 6 || ip[1] != 6, "addresses attached to unrelated owner names are never used")
 	}
 	if ip, ok := served[origin]; ok && !refused[origin] {
 		found := false
@@ -329,14 +375,26 @@ func verifC19PoolKeys() {
 // NXDOMAIN / empty answers on the HTTPS lookup: bounded queries, fall-back to the
 // origin's addresses when the chain is too long, NXDOMAIN on HTTPS = absence.
 func verifC14Chain() {
-	origin := "o.example"
+	host := "o.example"
+	// the origin in each accepted form: the HTTPS chain starts at the RFC 9460 2.3 name,
+	// address lookups use the bare host
+	form := vInt(0, 2)
+	origin := []string{host, host + ":8443", "foo://" + host}[form]
+	start := []string{host, "_8443._https." + host, "_foo." + host}[form]
 	hops := vInt(0, 6)
 	nx := vBool() // the last name of the chain answers NXDOMAIN to HTTPS instead of a service record
+	viaHost := form != 0 && hops >= 1 && vBool() // the prefixed name is an alias of the bare host itself
 	name := func(i int) string {
 		if i == 0 {
-			return origin
+			return start
+		}
+		if i == 1 && viaHost {
+			return host
 		}
 		return string([]byte{'a' + byte(i)}) + ".alias.example"
+	}
+	v6 := func(idx int) net.IP {
+		return net.IP{0x20, 1, 0xd, 0xb8, 0, 0, 0, 0, 0, 0, 0, 0, 0, 0, 0, byte(idx)}
 	}
 	z := &vZone{}
 	z.answer = func(q vQuery) (*dns.Message, error) {
@@ -347,7 +405,11 @@ func verifC14Chain() {
 				idx = i
 			}
 		}
+		if q.typ != 65 && q.name == host && idx < 0 {
+			idx = 0 // addresses of the origin itself are asked under the bare host name
+		}
 		vAssert(idx >= 0, "only names of the chain are queried")
+		vAssert(q.typ == 65 || q.name != start || start == host, "address lookups never use the _port._scheme name")
 		switch q.typ {
 		case 65:
 			if idx < hops {
@@ -359,6 +421,8 @@ func verifC14Chain() {
 			}
 		case 1:
 			m.Answer = append(m.Answer, dns.RR{Name: q.name, Type: 1, Class: 1, TTL: 60, Data: net.IP{10, 0, 0, byte(idx)}})
+		case 28:
+			m.Answer = append(m.Answer, dns.RR{Name: q.name, Type: 28, Class: 1, TTL: 60, Data: v6(idx)})
 		}
 		return m, nil
 	}
@@ -367,17 +431,25 @@ func verifC14Chain() {
 	res, err := r.Resolve(context.Background(), origin)
 	vAssert(err == nil, "resolution succeeds (NXDOMAIN on the HTTPS lookup is absence)")
 	nHTTPS := 0
+	var aName, aaaaName string
 	for _, q := range z.queries {
-		if q.typ == 65 {
+		switch q.typ {
+		case 65:
 			nHTTPS++
+		case 1:
+			aName = q.name
+		case 28:
+			aaaaName = q.name
 		}
 	}
 	vAssert(nHTTPS <= 4, "at most 4 HTTPS lookups")
 	vAssert(len(z.queries) <= 4+2, "bounded number of queries")
-	vAssert(len(res.Address) == 1, "one address")
+	vAssert(aName == aaaaName && aName != "", "A and AAAA are asked for the same name")
+	vAssert(len(res.Address) == 2, "one IPv4 and one IPv6 address")
+	end := 0 // index of the name whose addresses are expected
 	if hops <= 3 {
 		// the chain is followed to its end: addresses are those of the final alias target
-		vAssert(res.Address[0][3] == byte(hops), "addresses of the final alias target")
+		end = hops
 		if nx {
 			vAssert(len(res.HTTPS) == 0, "no HTTPS record")
 		} else {
@@ -385,7 +457,14 @@ func verifC14Chain() {
 		}
 	} else {
 		// too long: fall back to the origin without HTTPS records
-		vAssert(res.Address[0][3] == 0 && len(res.HTTPS) == 0, "alias chain too long: plain resolution of the origin")
+		vAssert(len(res.HTTPS) == 0, "alias chain too long: plain resolution of the origin")
+		if viaHost {
+			end = 1 // the bare host is itself the second name of this chain
+		}
+	}
+	if len(res.Address) == 2 {
+		vAssert(vBytesEq(res.Address[0].To4(), net.IP{10, 0, 0, byte(end)}), "IPv4 address of the final alias target (or of the origin)")
+		vAssert(vBytesEq(res.Address[1], v6(end)), "IPv6 address of the final alias target (or of the origin)")
 	}
 	vReach("chain")
 }
